@@ -169,4 +169,52 @@ example : let m : Mem (List Int) := (Mem.empty.alloc [2, 4, -6]).1
   exact ⟨rfl, rfl⟩
 
 end Mem
+
+/-! ### arrays of planes: one row that is no (integer) plane rejects the whole array -/
+
+/-- the array is accepted iff every row is accepted on its own — however many rows, whatever the others are. -/
+theorem planeArr_ok_iff (rtol atol gatol : Rat) (isHex : Bool) (V : M3 Rat) (rows : List (List Rat)) :
+    (planeArr rtol atol gatol isHex V rows).toBool = true ↔
+      ∀ r ∈ rows, (planeRow rtol atol gatol isHex V r).toBool = true := by
+  unfold planeArr
+  split
+  · rename_i h
+    simp only [Except.toBool, true_iff]
+    exact List.all_eq_true.mp h
+  · rename_i h
+    simp only [Except.toBool, Bool.false_eq_true, false_iff]
+    intro hall
+    exact h (List.all_eq_true.mpr hall)
+
+/-- an accepted array holds, row by row and in order, what each row gives on its own. -/
+theorem planeArr_rows (rtol atol gatol : Rat) (isHex : Bool) (V : M3 Rat) (rows : List (List Rat))
+    (out : List (V3 Rat)) (h : planeArr rtol atol gatol isHex V rows = .ok out) :
+    rows.map (planeRow rtol atol gatol isHex V) = out.map .ok := by
+  unfold planeArr at h
+  split at h
+  · rename_i hall
+    have hall' := List.all_eq_true.mp hall
+    injection h with h
+    subst h
+    clear hall
+    induction rows with
+    | nil => rfl
+    | cons r rs ih =>
+      have hr := hall' r (by simp)
+      have ih' := ih (fun x hx => hall' x (by simp [hx]))
+      cases hrow : planeRow rtol atol gatol isHex V r with
+      | error e => simp [hrow, Except.toBool] at hr
+      | ok n =>
+        simp only [List.map_cons, List.filterMap_cons, hrow, List.cons.injEq, true_and]
+        exact ih'
+  · cases h
+
+/-- the zero index vector is no plane, alone or as a row. -/
+theorem planeRow_zero (rtol atol gatol : Rat) (isHex : Bool) (V : M3 Rat) :
+    (planeRow rtol atol gatol isHex V [0, 0, 0]).toBool = false := by
+  unfold planeRow
+  split
+  · simp [planeCrystalToCartesianUnnorm, planeNormalUnnorm, planeInPlane, truncRat, Except.toBool]
+  · rfl
+
 end Atomman.C16
